@@ -199,7 +199,8 @@ def gen_cases(ctx):
              'name_in': rng.choice(['lte_full', 'linear_thermal_expansion_coefficient_full']),
              'pop': rng.random() < 0.7})
     # --- sparse alignment
-    for _ in range(1000 if thorough else 40):
+    ext = getattr(ctx, 'align_extended', False)
+    for _ in range(1000 if thorough or ext else 40):
         nr, nc = rng.randint(1, 5), rng.randint(1, 5)
         mats = []
         for _m in range(rng.randint(1, 5)):
@@ -227,9 +228,36 @@ def gen_cases(ctx):
         if all(m['format'] == 'coo' for m in mats) or rng.random() < 0.5:
             pass
         add({'kind': 'align', 'shape': [nr, nc], 'mats': mats})
+    # --- sparse alignment, huge SHAPES (n_row * n_col > 2^31; a handful of entries
+    # near the corners and on both sides of the 2^31 / 2^32 flat-key boundaries)
+    for _ in range(40 if thorough or ext else 6):
+        if rng.random() < 0.6:
+            n = rng.choice([46341, 60000, 65536, 70001])
+            nr, nc = n, n
+        else:
+            nr, nc = rng.choice([(3, 3 * 10 ** 9), (5, 2 ** 31 + 11), (100000, 50000), (40000, 2 ** 17 + 1)])
+        special_rows = sorted({0, 1, nr - 1, nr - 2, min(nr - 1, (2 ** 31) // nc),
+                               min(nr - 1, (2 ** 31) // nc + 1), min(nr - 1, (2 ** 32) // nc),
+                               min(nr - 1, (2 ** 32) // nc + 1), rng.randrange(nr)})
+        special_cols = sorted({0, 1, nc - 1, nc - 2, (2 ** 31) % nc, min(nc - 1, (2 ** 31) % nc + 1),
+                               rng.randrange(nc), min(nc - 1, 2 ** 31 - 1), min(nc - 1, 2 ** 31)})
+        mats = []
+        for _m in range(rng.randint(2, 4)):
+            ent, seen = [], set()
+            for _e in range(rng.randint(2, 7)):
+                i, j = rng.choice(special_rows), rng.choice(special_cols)
+                if (i, j) in seen:
+                    continue
+                seen.add((i, j))
+                ent.append([i, j, pair(Fr(rng.randint(-64, 64), 8))])
+            # (scipy's csr+csr for NON-canonical operands allocates O(n_col) workspace:
+            #  unsorted storage only where n_col is moderate)
+            fmts = ['csr', 'coo', 'csr_unsorted'] if nc <= 2 ** 20 else ['csr', 'coo']
+            mats.append({'format': rng.choice(fmts), 'entries': ent})
+        add({'kind': 'align', 'shape': [nr, nc], 'mats': mats, 'huge_shape': True})
     # --- sparse alignment, bit-exact stream: entries spanning many binades
     # relative to the dummy scale (tiny entries next to large negative ones)
-    for _ in range(300 if thorough else 30):
+    for _ in range(300 if thorough or ext else 30):
         nr, nc = rng.randint(1, 4), rng.randint(2, 5)
         big = Fr(rng.randint(1, 2 ** 20)) * Fr(2) ** rng.randint(-4, 40)
         mats = []
@@ -587,6 +615,13 @@ def main(ctx):
         tie_ok = False
         ctx.log('translator failed closed:', e)
         ctx.notes['translator_error'] = f'{type(e).__name__}: {e}'
+    # 1b. tie of the hand model of align_nnz: exact-body match of the source
+    align_tie_ok, align_msg, align_sha = c17_tensor.check_align_nnz_body(str(lib.REPO))
+    ctx.sources['functions.py:align_nnz'] = align_sha
+    if not align_tie_ok:
+        ctx.log('align_nnz tie:', align_msg)
+        ctx.notes['align_nnz_tie'] = align_msg
+    ctx.align_extended = not align_tie_ok
     # 2. proofs
     proof_ok = False
     corr_built = False
@@ -630,7 +665,8 @@ def main(ctx):
             ctx.count('spectrum:' + c['label'])
         if c['kind'] == 'align':
             ctx.count('align_n_matrices:%d' % len(c['mats']))
-            ctx.count('align_stream:' + ('bit-exact' if c.get('exact_stream') else 'dyadic'))
+            ctx.count('align_stream:' + ('bit-exact' if c.get('exact_stream') else
+                                         'huge-shape' if c.get('huge_shape') else 'dyadic'))
         nontriv = any(x[0] != 0 for row in c.get('a', []) for x in row) or \
             any(m['entries'] for m in c.get('mats', []))
         ctx.case(public_case(c), nontrivial=nontriv,
@@ -693,6 +729,12 @@ def main(ctx):
         ctx.violation('tie-broken', {'translator_error': ctx.notes.get('translator_error')},
                       'translator accepts the tensor helpers', 'fail-closed',
                       'translator c17_tensor', found_input=False, signature={'kind': 'tie-broken'})
+    if not align_tie_ok and not any(k == 'align' for (k, _w) in per_what):
+        ctx.violation('tie-broken', {'function': 'align_nnz', 'message': align_msg},
+                      'functions.align_nnz is the text Model.align_nnz was written from',
+                      align_msg, 'exact-body tie of the hand model Model.align_nnz '
+                      '(C17_align_nnz_values); extended align_nnz search found no failing input',
+                      found_input=False, signature={'kind': 'tie-broken', 'function': 'align_nnz'})
     if tie_ok and not proof_ok and n_bad == 0:
         badn = [o['name'] for o in ctx.obligations if not o['discharged']]
         ctx.violation('proof-broken', {'log_tail': ctx.notes.get('build_log_tail', '')[-600:]},
